@@ -267,6 +267,10 @@ func init() {
 		in.realPools = true
 		return nil
 	})
+	reg(vxPkg+"Preemptions", func(in *Interp, c *Frame, fn *ssa.Function, a []Value) Value {
+		in.preempt = int(in.concreteInt(a[0], "vx.Preemptions budget"))
+		return nil
+	})
 	reg(vxPkg+"SelectAny", func(in *Interp, c *Frame, fn *ssa.Function, a []Value) Value {
 		in.selectAny = true
 		return nil
